@@ -287,7 +287,10 @@ func runC14(c *Ctx) {
 				rf = factsOf(r.Parent())
 			}
 			ok := rf.EveryPathHas(r.Block(), func(f Fact) bool {
-				return f.IsCmp && f.Entails(CmpSpec{A: Matcher{"len(candidates)", func(t *Term) bool { return t.Op == "call" && t.Sym == "builtin:len" }}, NoB: true, Rel: LE, D: 0})
+				return f.IsCmp && f.Entails(CmpSpec{A: Matcher{"len(candidates)", func(t *Term) bool {
+					// len(heap), or the heap's own Len()
+					return t.Op == "call" && (t.Sym == "builtin:len" || strings.HasSuffix(t.Sym, "Heap).Len"))
+				}}, NoB: true, Rel: LE, D: 0})
 			})
 			c.Require("C14.R9 eviction-declines-only-when-empty", FuncKey(ev)+": return false", p.InstrPos(r), "the eviction answers false only where it has no candidate at all", ok, "")
 		}
